@@ -5,3 +5,15 @@ REACHED = False
 def hit():
     global REACHED
     REACHED = True
+
+
+def concretize(*vals):
+    """Ask CrossHair for a concrete value of each argument (a fork node of the path tree per value: the search still has to exhaust
+    every value allowed by the preconditions before it reports 'Confirmed over all paths').  Used for small structural selectors whose
+    symbolic form only slows the path down (symbolic file positions, symbolic-length byte strings).  Identity outside CrossHair."""
+    try:
+        from crosshair import realize
+    except Exception:
+        return vals if len(vals) != 1 else vals[0]
+    out = tuple(realize(v) for v in vals)
+    return out if len(out) != 1 else out[0]
